@@ -1,100 +1,78 @@
 (* C17 -- 'redundant' / 'has no effect' / 'overwritten' verdicts are sound: the
    flagged line can be deleted.  Only statements; every proof is `exact <lemma>`.
 
+   This is the state AFTER the fixes 01-04 of RedundantScope (a '!=' invalidates
+   the remembered text; ':=' and '!=' also read the variables they reach through
+   other variables; a later '?=' only replaces the single earlier definition; a
+   '!=' that uses the variable itself does not make the previous definition
+   redundant).  One finding cannot be repaired without changing what the test
+   suite expects (VAR:= ${X} followed by VAR= ${X} must be reported as redundant,
+   redundantscope_test.go), so the full statement is still false.
+
    check     : Model/Redundant.v, the model of RedundantScope.Check (verdicts =
                flagged line, line named in the message, kind)
    deletable : Spec/VerdictSound.v: deleting line i leaves the final value of
                every variable (Spec/MakeEval.v, for every fuel) unchanged
    wf_program: what the makefile parser can produce (no '$' in literal chunks
-               and names, the value text does not start with a space) *)
-From PV Require Import Lib.Bytes Model.Redundant Spec.MakeEval Spec.VerdictSound Spec.SingleFile
-  Proofs.RedundantRefuted Proofs.RedundantSound Proofs.RedundantReads Proofs.RedundantSingle.
+               and names, the value text does not start with a space)
+   check p = Ok vs excludes Panic (include path runs off the stack) and OutOfFuel
+   (closure of Var.Refs not reached in the allotted rounds; C17_check_total shows
+   that this never happens). *)
+From PV Require Import Lib.Bytes Model.Redundant Spec.MakeEval Spec.VerdictSound
+  Proofs.RedundantRefuted Proofs.RedundantSound Proofs.RedundantReads Proofs.RedundantTotal.
 
-(* The full statement: for every well-formed program (any file labels / line
-   numbers on which the model does not panic), every verdict of the model flags
-   a line whose deletion leaves the final value of every variable unchanged. *)
 Definition C17_verdict_sound_full : Prop :=
   forall (p : program) (vs : list verdict) (vd : verdict),
     wf_program p = true -> check p = Ok vs -> In vd vs -> deletable p (vd_flagged vd).
 
-(* It is false of the faithful model (DESIGN section 8 item 7:
-   VB= 1 / VA:= ${VB} / VA= ${VB} / VB= 2, "line 3 is redundant"). *)
+(* Still false: VB= 1 / VA:= ${VB} / VA= ${VB} / VB= 2, "line 3 is redundant". *)
 Theorem C17_verdict_sound_refuted : ~ C17_verdict_sound_full.
 Proof. exact verdict_sound_full_refuted. Qed.
 Print Assumptions C17_verdict_sound_refuted.
 
-(* The partial theorem.  A verdict about variable x, emitted at line
-   hi = max(flagged, because), lo = the other line, is sound whenever
-   (1) no assignment to x in lines 0..hi is ':=' or '!=' with a '$' in its text,
-   (2) if the earlier line is the flagged one: no ':=' / '!=' with a '$' in its
-       text strictly between lo and hi (other variables, anywhere else: free),
-   (3) backward_default_ok: if the earlier line is flagged as redundant because
-       of a later '?=', it is the first assignment to x,
-   (4) forward_same_ok: if the later line is flagged because it assigns the
-       remembered text again ('=' or ':='), no '!=' was applied to x before. *)
+(* The partial theorem, for all programs (any include structure, every fuel).
+   A verdict about variable x flags a deletable line whenever
+   - the LATER of its two lines is flagged because it assigns the remembered text
+     again ('=' or ':='): the last '=' / ':=' to x before it is not a ':=' whose
+     text contains a '$' (the unrepaired finding);
+     no condition if the later line is flagged because it is a '?=';
+   - an EARLIER line is flagged: no ':=' / '!=' with a '$' in its text strictly
+     between the two lines, and the later line is not one either.
+   Compared with the unrepaired code the conditions "no '!=' on x before",
+   "first assignment of x" and "no eager assignment to x with a '$'" are gone. *)
 Theorem C17_verdict_sound_partial :
   forall (p : program) (vs : list verdict) (vd : verdict),
     wf_program p = true -> check p = Ok vs -> In vd vs ->
-    (let lo := Nat.min (vd_flagged vd) (vd_because vd) in
-     let hi := Nat.max (vd_flagged vd) (vd_because vd) in
-     plain_on (line_var p (vd_flagged vd)) (firstn (S hi) p) &&
-     (if Nat.ltb (vd_flagged vd) (vd_because vd) then eager_plain (between p lo hi) else true) &&
-     backward_default_ok p vd && forward_same_ok p vd) = true ->
+    (if Nat.ltb (vd_flagged vd) (vd_because vd) then
+       eager_plain (between p (vd_flagged vd) (vd_because vd)) && line_plain p (vd_because vd)
+     else
+       match line_op p (vd_flagged vd) with
+       | Some OpDefault => true
+       | _ => negb (after_eval_ref (writes_of (line_var p (vd_flagged vd)) 0 (firstn (vd_flagged vd) p)))
+       end) = true ->
     deletable p (vd_flagged vd).
 Proof. exact verdict_sound_partial. Qed.
 Print Assumptions C17_verdict_sound_partial.
 
-(* The same in plain terms for the common case: one makefile (all lines in one
-   file, numbered from 1), no '!=' at all, no '$' in the text of a ':='
-   assignment.  Then every verdict is sound.  (The "included file" arm of the
-   default case is unreachable: all include paths are equal.) *)
-Theorem C17_single_file_sound :
+(* In plain terms: if no ':=' and no '!=' in the program has a '$' in its text,
+   every verdict is sound -- in one file or with included files. *)
+Theorem C17_eager_plain_sound :
   forall (p : program) (vs : list verdict) (vd : verdict),
-    wf_program p = true -> single_file p = true -> eager_plain p = true -> no_shell p = true ->
+    wf_program p = true -> eager_plain p = true ->
     check p = Ok vs -> In vd vs -> deletable p (vd_flagged vd).
-Proof. exact single_file_sound. Qed.
-Print Assumptions C17_single_file_sound.
+Proof. exact eager_plain_sound. Qed.
+Print Assumptions C17_eager_plain_sound.
 
-(* Each of the four conditions is needed: dropping it makes the statement false. *)
-Theorem C17_guard_needs_plain_assignments :
+(* The condition on a flagged later line is needed. *)
+Theorem C17_guard_needs_eval_condition :
   ~ verdict_sound_on (fun p vd =>
-      (if Nat.ltb (vd_flagged vd) (vd_because vd)
-       then eager_plain (between p (Nat.min (vd_flagged vd) (vd_because vd)) (Nat.max (vd_flagged vd) (vd_because vd)))
-       else true) = true /\
-      backward_default_ok p vd = true /\ forward_same_ok p vd = true).
-Proof. exact guard_needs_plain_on. Qed.
-Print Assumptions C17_guard_needs_plain_assignments.
-
-Theorem C17_guard_needs_plain_between :
-  ~ verdict_sound_on (fun p vd =>
-      plain_on (line_var p (vd_flagged vd)) (firstn (S (Nat.max (vd_flagged vd) (vd_because vd))) p) = true /\
-      backward_default_ok p vd = true /\ forward_same_ok p vd = true).
-Proof. exact guard_needs_between. Qed.
-Print Assumptions C17_guard_needs_plain_between.
-
-Theorem C17_guard_needs_backward_default_ok :
-  ~ verdict_sound_on (fun p vd =>
-      plain_on (line_var p (vd_flagged vd)) (firstn (S (Nat.max (vd_flagged vd) (vd_because vd))) p) = true /\
-      (if Nat.ltb (vd_flagged vd) (vd_because vd)
-       then eager_plain (between p (Nat.min (vd_flagged vd) (vd_because vd)) (Nat.max (vd_flagged vd) (vd_because vd)))
-       else true) = true /\
-      forward_same_ok p vd = true).
-Proof. exact guard_needs_backward_default_ok. Qed.
-Print Assumptions C17_guard_needs_backward_default_ok.
-
-Theorem C17_guard_needs_forward_same_ok :
-  ~ verdict_sound_on (fun p vd =>
-      plain_on (line_var p (vd_flagged vd)) (firstn (S (Nat.max (vd_flagged vd) (vd_because vd))) p) = true /\
-      (if Nat.ltb (vd_flagged vd) (vd_because vd)
-       then eager_plain (between p (Nat.min (vd_flagged vd) (vd_because vd)) (Nat.max (vd_flagged vd) (vd_because vd)))
-       else true) = true /\
-      backward_default_ok p vd = true).
-Proof. exact guard_needs_forward_same_ok. Qed.
-Print Assumptions C17_guard_needs_forward_same_ok.
+      Nat.ltb (vd_flagged vd) (vd_because vd) = true ->
+      eager_plain (between p (vd_flagged vd) (vd_because vd)) && line_plain p (vd_because vd) = true).
+Proof. exact guard_needs_eval_condition. Qed.
+Print Assumptions C17_guard_needs_eval_condition.
 
 (* Reads block verdicts: when the last mention of x before an assignment to x
-   is a use ${x} in a value, that assignment emits no verdict (emitted_at = the
-   later of the two lines of a verdict).  For all programs, no guard. *)
+   is a use ${x} in a value, that assignment emits no verdict. *)
 Theorem C17_read_blocks_verdict :
   forall (pre : program) (l : line) (post : program) (a : assign) (vs : list verdict),
     check (pre ++ l :: post) = Ok vs -> l_body l = Some a ->
@@ -103,44 +81,38 @@ Theorem C17_read_blocks_verdict :
 Proof. exact read_blocks_verdict. Qed.
 Print Assumptions C17_read_blocks_verdict.
 
-(* The hypotheses are satisfiable: a program with one verdict of each kind, all
-   inside the guard; and one that contains VB:= ${VC} and is still inside it. *)
+(* The fuel of the model (rounds for the closure of Var.Refs) always suffices:
+   check p = Ok vs only excludes the panic of includePath.popUntil. *)
+Theorem C17_check_total : forall p : program, check p <> OutOfFuel.
+Proof. exact check_never_out_of_fuel. Qed.
+Print Assumptions C17_check_total.
+
+(* The hypotheses are satisfiable. *)
 Example C17_guard_satisfiable :
   wf_program prog_good = true /\
   check prog_good = Ok [mkVerdict 1 0 KRedundant; mkVerdict 2 1 KNoEffect; mkVerdict 2 3 KOverwritten] /\
   forallb (guard prog_good) [mkVerdict 1 0 KRedundant; mkVerdict 2 1 KNoEffect; mkVerdict 2 3 KOverwritten] = true.
 Proof. exact prog_good_facts. Qed.
 
-Example C17_single_file_satisfiable :
-  single_file prog_good = true /\ eager_plain prog_good = true /\ no_shell prog_good = true.
-Proof. exact prog_good_single. Qed.
+Example C17_eager_plain_satisfiable : eager_plain prog_good = true.
+Proof. exact prog_good_plain. Qed.
 
 Example C17_guard_allows_eval_elsewhere :
   wf_program prog_good_eval = true /\ check prog_good_eval = Ok [mkVerdict 2 1 KRedundant] /\
   guard prog_good_eval (mkVerdict 2 1 KRedundant) = true /\ eager_plain prog_good_eval = false.
 Proof. exact prog_good_eval_facts. Qed.
 
-(* The other counterexamples found on the real code, on model and evaluator. *)
-Example C17_witness_indirect_read :
-  check prog_indirect = Ok [mkVerdict 1 3 KOverwritten] /\
-  final 6 (to_spec prog_indirect) vB = Some la /\
-  final 6 (to_spec (delete_nth 1 prog_indirect)) vB = Some lb.
-Proof. exact (proj2 prog_indirect_facts). Qed.
+(* The former counterexamples: the repaired code no longer emits the wrong verdict. *)
+Example C17_repaired_indirect_read : check prog_indirect = Ok [].
+Proof. exact prog_indirect_facts. Qed.
 
-Example C17_witness_after_shell :
-  check prog_shell = Ok [mkVerdict 0 1 KRedundant; mkVerdict 2 1 KRedundant] /\
-  final 6 (to_spec prog_shell) vA = Some la /\
-  final 6 (to_spec (delete_nth 2 prog_shell)) vA = Some [60; 99; 62]%N.
-Proof. exact (proj2 prog_shell_facts). Qed.
+Example C17_repaired_after_shell :
+  check prog_shell = Ok [mkVerdict 0 1 KRedundant; mkVerdict 1 2 KOverwritten] /\
+  deletable_b 6 prog_shell 0 = true /\ deletable_b 6 prog_shell 1 = true.
+Proof. exact prog_shell_facts. Qed.
 
-Example C17_witness_included_default :
-  check prog_incdefault = Ok [mkVerdict 0 1 KOverwritten; mkVerdict 1 3 KRedundant] /\
-  final 6 (to_spec prog_incdefault) vA = Some la /\
-  final 6 (to_spec (delete_nth 1 prog_incdefault)) vA = Some lb.
-Proof. exact (proj2 prog_incdefault_facts). Qed.
+Example C17_repaired_included_default : check prog_incdefault = Ok [mkVerdict 0 1 KOverwritten].
+Proof. exact prog_incdefault_facts. Qed.
 
-Example C17_witness_shell_reads_itself :
-  check prog_shellself = Ok [mkVerdict 0 1 KRedundant] /\
-  final 6 (to_spec prog_shellself) vA = Some [60; 97; 62]%N /\
-  final 6 (to_spec (delete_nth 0 prog_shellself)) vA = Some [60; 62]%N.
-Proof. exact (proj2 prog_shellself_facts). Qed.
+Example C17_repaired_shell_reads_itself : check prog_shellself = Ok [].
+Proof. exact prog_shellself_facts. Qed.
